@@ -96,6 +96,12 @@ class Observation:
         }
 
 
+def adj_default(name):
+    """default of an adjustment, read from the code under test (no property fixes the shipped defaults)"""
+    from waitress.adjustments import Adjustments
+    return getattr(Adjustments, name)
+
+
 def observe(segments, adj=None, eof=True, app=None, unix=False, send_caps=None, keep=False, addr=("127.0.0.1", 40000),
             max_turns=3000, nonquiescence_is_observation=False):
     """Feed `segments` (list of bytes; None = wait for quiescence before sending the rest) to a fresh
@@ -103,7 +109,7 @@ def observe(segments, adj=None, eof=True, app=None, unix=False, send_caps=None, 
     app = app or RecApp()
     o = Observation()
     total = sum(len(x) for x in segments if x)
-    rb = max(1, int((adj or {}).get("recv_bytes", 8192)))
+    rb = max(1, int((adj or {}).get("recv_bytes", adj_default("recv_bytes"))))
     max_turns = max(max_turns, 400 + 3 * (total // rb) + 2 * len(segments))
     w = simnet.World(app, adj=adj, unix=unix)
     try:
